@@ -64,10 +64,10 @@ PROP = {
             "anchors": [(TV, ["build_validation", "verify"])],
             "functions": ["build_validation"],
             "harnesses": [
-                H("c10_profile", "P", tier="thorough", what="validation profile: EdDSA only, exp, audience == {snap}, "
+                H("c10_profile", "P", tier="experimental", what="validation profile: EdDSA only, exp, audience == {snap}, "
                   "required claims, leeway 60 (constant function; setters observed by recorders) - NOT discharged within 900 s",
                   timeout=3600),
-                H("c10_profile_nbf", "P", tier="thorough", what="validation profile: validate_nbf (F-nbf) - NOT discharged within 1200 s",
+                H("c10_profile_nbf", "P", tier="experimental", what="validation profile: validate_nbf (F-nbf) - NOT discharged within 1200 s",
                   timeout=3600),
             ],
         },
